@@ -46,6 +46,7 @@ verus! {
 //@verify parse_7_binary_temp
 //@verify parse_8_unary
 //@verify parse_9_terminal_and_parentheses
+//@verify from_tokens
 
 fn main() {}
 } // verus!
